@@ -256,6 +256,11 @@ def run_script(ctx, gname, program, history, actions, own_exists):
     ctx.count("scripts")
     for step, o in enumerate(history):
         exp = observe(clean.root.evaluate, copy.deepcopy(o))
+        if step and (step + len(actions)) % 2 == 0:
+            # a caller that asks validate() about the previous (by now stored) options between two evaluations: a
+            # look-up that is not followed by a retrieval; whatever it answers, it may leave nothing behind
+            observe(G.root.validate, copy.deepcopy(history[step - 1]))
+            ctx.count("validate_between_evaluations")
         mark = G.log.mark()
         got = observe(G.root.evaluate, copy.deepcopy(o))
         ctx.evaluations += 1
